@@ -1509,7 +1509,9 @@ impl SimRing {
                 // already been freed (the tracking allocator keeps freed watched
                 // blocks in quarantine, so this is detectable).
                 for r in &regions {
-                    if r.block.is_none() && track::freed_block_of(r.addr).is_some() {
+                    if r.block.is_none() && (track::freed_block_of(r.addr).is_some() || crate::util::on_stack(r.addr)) {
+                        // freed heap memory, or a thread's stack: the frame that held it is gone by
+                        // the time the kernel reads it (operations outlive the call that built them)
                         ev.push(KEv::BadMemory { seq, what: r.what, addr: r.addr });
                     }
                 }
